@@ -424,7 +424,9 @@ class Engine(ExprMixin, ExprMixin2, StmtMixin, LoopMixin, CallMixin, CompMixin, 
         if text.startswith("@") and ":" in text:
             comp, _, flag = text[1:].partition(":")
             if flag == "fresh":
-                return [(comp, None, lambda r, lo=entry.alloc_ptr(): r < lo)]      # kept at every object that existed at entry
+                lo = getattr(entry, "fresh_base", None)
+                lo = entry.alloc_ptr() if lo is None else lo           # (a loop's own frame: "fresh" still means allocated since the *function* was entered)
+                return [(comp, None, lambda r, lo=lo: r < lo)]      # kept at every object that existed at entry
             own = f.comp("list.nodeowned")
             return [(comp, None, lambda r, own=own: z3.Not(z3.Select(own, r)))]     # kept where not node-owned (final flags: monotone)
         if text.startswith("@"):
